@@ -32,6 +32,7 @@ inductive Action (α : Type) where
 
 inductive SpaceKind (α : Type) where
   | box (low high : α)
+  | boxv (bounds : List (α × α))   -- a box with its own bounds for every contract (array `low` / `high`)
   | disc (allocs : List (List α))
 
 structure Space (α : Type) where
@@ -135,6 +136,7 @@ def processNonlatent (cfg : EnvCfg α) (s : EnvState α) : EnvState α :=
 def nullAction (sp : Space α) : Action α :=
   match sp.kind with
   | .box _ _ => .vec (sp.keys.map fun _ => some 0)
+  | .boxv _ => .vec (sp.keys.map fun _ => some 0)
   | .disc _ => .idx 0
 
 /-- `action in space` -/
@@ -143,17 +145,21 @@ def contains (sp : Space α) : Action α → Bool
       (match sp.kind with
        | .box lo hi => decide (v.length = sp.keys.length) &&
            v.all (fun x => match x with | some y => decide (lo ≤ y) && decide (y ≤ hi) | none => false)
+       | .boxv bs => decide (v.length = sp.keys.length) && decide (bs.length = sp.keys.length) &&
+           (v.zip bs).all (fun p => match p.1 with
+             | some y => decide (p.2.1 ≤ y) && decide (y ≤ p.2.2) | none => false)
        | .disc _ => false)
   | .idx i =>
       (match sp.kind with
        | .disc allocs => decide (0 ≤ i) && decide (i < allocs.length)
-       | .box _ _ => false)
+       | .box _ _ => false
+       | .boxv _ => false)
   | .junk => false
 
 /-- the allocation an in-space action denotes -/
 def denote (sp : Space α) : Action α → List α
   | .vec v => v.map (fun x => x.getD 0)
-  | .idx i => (match sp.kind with | .disc allocs => (allocs[i.toNat]?).getD [] | .box _ _ => [])
+  | .idx i => (match sp.kind with | .disc allocs => (allocs[i.toNat]?).getD [] | .box _ _ => [] | .boxv _ => [])
   | .junk => []
 
 /-- `contract.static_hashing()`: a chain resolves to its lead contract at the process-wide contract clock;
